@@ -145,8 +145,53 @@ MixVerdict(e) ==
   ELSE IF SameUpToStartIndex(e.ua, e.ub) THEN "ok"
   ELSE IF e.raised # "" THEN "ok" ELSE "operands_of_different_algebras_silently_combined"
 
+(***************************************************************************)
+(* BroadcastModel (C16): array-valued coefficients are functions            *)
+(* lane -> integer; every operator acts lane by lane.  The driver logs, for *)
+(* every lane of the result, which lane of each operand numpy's            *)
+(* broadcasting pairs with it (obtained by broadcasting arrays of position *)
+(* labels, so numpy's rules are not re-implemented here).                    *)
+(*   a.flat[c][lane + 1] = value of coefficient c of operand a in that lane *)
+(***************************************************************************)
+IntC(k) == RConst(k)
+LaneMV(c, a, lane) == MR!FromKV(c.d, a.keys, [i \in DOMAIN a.keys |-> IntC(a.flat[i][lane + 1])])
+BcastVerdict(c, e) ==
+  IF e.raised # "" THEN "array_operands_raised"
+  ELSE IF \E k \in DOMAIN e.res.flat : Len(e.res.flat[k]) # Len(e.lanes) THEN "result_shape_differs_from_broadcast_shape"
+  ELSE IF \E ln \in DOMAIN e.lanes :
+            MR!OpVerdict(c, e.op, [i \in DOMAIN e.args |-> LaneMV(c, e.args[i], e.lanes[ln][i])], e.params, "",
+                         e.res.keys, [k \in DOMAIN e.res.keys |-> IntC(e.res.flat[k][ln])], MR!MVZero(c.d)) # "ok"
+       THEN "lane_of_result_differs_from_operator_on_lanes_of_operands"
+  ELSE "ok"
+
+\* x[idx]: every coefficient array is indexed alike; e.pos = addressed positions (flat, 0-based)
+GetItemVerdict(e) ==
+  IF e.raised # "" THEN "getitem_raised"
+  ELSE IF e.res.keys # e.before.keys THEN "getitem_changed_the_keys"
+  ELSE IF \E k \in DOMAIN e.before.flat : e.res.flat[k] # [p \in DOMAIN e.pos |-> e.before.flat[k][e.pos[p] + 1]]
+       THEN "getitem_returned_other_entries_than_addressed"
+  ELSE IF e.after # e.before THEN "getitem_modified_its_operand"
+  ELSE "ok"
+
+\* x[idx] = v: exactly the addressed entries of every coefficient change, to the assigned values
+SetItemVerdict(e) ==
+  IF e.raised # "" THEN "setitem_raised"
+  ELSE IF e.after.keys # e.before.keys THEN "setitem_changed_the_keys"
+  ELSE IF \E k \in DOMAIN e.before.flat : \E j \in DOMAIN e.before.flat[k] :
+            LET hits == {p \in DOMAIN e.pos : e.pos[p] + 1 = j} IN
+            IF hits = {} THEN e.after.flat[k][j] # e.before.flat[k][j]
+            ELSE e.after.flat[k][j] # e.assigned[k][CHOOSE p \in hits : \A p2 \in hits : p2 <= p]
+       THEN "setitem_touched_other_entries_or_stored_other_values"
+  ELSE IF e.otherafter # e.otherbefore THEN "setitem_modified_an_unrelated_multivector"
+  ELSE "ok"
+
 Verdict(e) ==
   CASE e.kind = "op" -> OpEventVerdict(CC, e)
+    [] e.kind = "resolve" -> (IF e.container # e.expected_container THEN "sequence_operand_did_not_yield_the_sequence_of_results"
+                               ELSE OpEventVerdict(CC, e))
+    [] e.kind = "bcast" -> BcastVerdict(CC, e)
+    [] e.kind = "getitem" -> GetItemVerdict(e)
+    [] e.kind = "setitem" -> SetItemVerdict(e)
     [] e.kind = "relabel" -> RelabelVerdict(e)
     [] e.kind = "mix" -> MixVerdict(e)
     [] e.kind = "subst" -> SubstVerdict(CC, e)
